@@ -365,7 +365,7 @@ class NucleationMonitor:
                 key = p
                 prev = self.prev.get(key)
                 # (fixed parameters: with a radius-dependent aspect ratio the shape factor in the barrier changes from step to step)
-                fixed_shape = self.cfg['phase_params'][self.cfg['phases'][p]].get('ar') != 'fn'
+                fixed_shape = self.cfg['phase_params'][self.cfg['phases'][p]].get('ar') not in ('fn', 'fnb')
                 if self.iso and fixed_shape and len(m.elements) == 1 and len(m.phases) == 1 and prev is not None and prev[0] > dG and jss > prev[1] * (1 + 1e-6) and not clamped and prev[2] == T:
                     F.add('C14.rate_monotone_in_dG', f'step {n} phase {p}: driving force fell from {prev[0]!r} to {dG!r} but the steady-state rate per site rose from {prev[1]!r} to {jss!r}', q='Jss')
                 self.prev[key] = (dG, jss, T)
